@@ -89,7 +89,7 @@ fn main() {
                         if e.contains("not valid to be used as export") { late_export += 1; continue; }
                         println!("C01-BOUNDED VIOLATION: the encoded composition (graph API, choice {choice:#07b}, dependencies {}, validation {}) is rejected by the validator: {e}", if define { "embedded" } else { "imported" }, if val { "requested" } else { "not requested" }); std::process::exit(1);
                     }
-                    if samples.len() < 2 && choice % 5 == 4 { samples.push(format!("graph choice {choice:#07b} embedded={define} validate={val}: {} bytes, valid", bytes.len())); }
+                    if samples.len() < 2 { samples.push(format!("graph choice {choice:#07b} embedded={define} validate={val}: {} bytes, valid", bytes.len())); }
                 }
                 Err(EncodeError::ValidationFailure { source }) => {
                     let msg = format!("{source:#}");
